@@ -333,7 +333,7 @@ def run_corpus(ctx):
                 check(ctx, p, T, m, S, ["list", "tuple", "set"][i % 3], wit, "corpus")
 
 
-def deep_cascade(ctx, depth):
+def deep_cascade(ctx, depth, leftover=None):
     """One long acyclic cascade N000 -> N001 gamma, N001 -> N002 gamma, ...: every level is unfolded, however many there are."""
     names_ = [f"N{i:03d}" for i in range(depth)]
     stmts = [{"k": "Decay", "m": n, "lines": [{"bf": "1.0", "fs": [names_[i + 1], "gamma"] if i + 1 < depth else ["gamma", "gamma"], "photos": False, "model": "PHSP", "params": []}]}
@@ -347,10 +347,37 @@ def deep_cascade(ctx, depth):
     if not ok:
         return
     w = {**wit, "mother": names_[0], "stable": []}
-    ok, got = ctx.guard("chain", w, res[0].build_decay_chains, names_[0])
-    contracts.drain()
-    if not ok:
-        return
+    if leftover is None:
+        ok, got = ctx.guard("chain", w, res[0].build_decay_chains, names_[0])
+        contracts.drain()
+        if not ok:
+            return
+    else:
+        # the question asked from deep inside the caller's own recursion, `leftover` frames below the interpreter's recursion limit: the answer is
+        # either the library's RecursionError (not judged) or the whole unfolding -- never a chain that stops half-way down
+        import sys  # noqa: PLC0415
+
+        f, cur = sys._getframe(), 0
+        while f is not None:
+            cur, f = cur + 1, f.f_back
+
+        def descend(n):
+            return res[0].build_decay_chains(names_[0]) if n <= 0 else descend(n - 1)
+
+        w["asked_with_frames_left"] = leftover
+        ctx.hit("asked-from-deep-inside-the-callers-recursion")
+        try:
+            got = descend(max(0, sys.getrecursionlimit() - cur - leftover))
+        except RecursionError:
+            ctx.hit("asked-from-deep-inside-the-callers-recursion:recursion-error:not-judged")
+            contracts.drain()
+            return
+        except Exception as e:  # noqa: BLE001
+            ctx.violate("chain:deep-cascade:raised:" + type(e).__name__, f"{type(e).__name__}: {e}", w)
+            contracts.drain()
+            return
+        contracts.drain()
+        ctx.hit("asked-from-deep-inside-the-callers-recursion:answered")
     level, node = 0, got
     while True:
         (m, modes), = node.items()
@@ -370,6 +397,8 @@ def deep_cascade(ctx, depth):
 def run(ctx):
     contracts.arm("parser_chains")
     deep_cascade(ctx, ctx.rng.choice([120, 150, 180]))
+    for left in (2000, 700, 450, 300, 200, 120, 60):
+        deep_cascade(ctx, 110, leftover=left)
     for _ in range(ctx.pick(120, 800)):
         stmts, T, parts, exp = gen_tables(ctx)
         if exp.get("derived_table_used_as_daughter"):
